@@ -21,6 +21,8 @@ DriverRule(e) ==        \* e = the write event, which carries the descriptor
         Cardinality(Range(p.steps)) # Len(p.steps) \/ Len(p.steps) = 0 \/ Len(p.vals) # Len(p.steps) \/ \E s \in DOMAIN p.vals : Len(p.vals[s]) # NV(p.kind)
        THEN "driver/case-shape"
   ELSE IF e.sol.route \notin Routes THEN "driver/route"
+  ELSE IF ~HistoryInScope(e.sol, [origin |-> e.origin, init |-> IF e.origin = "none" THEN e.sol ELSE e.init])
+       THEN "driver/history"
   ELSE IF Cardinality({e.sol.pps[i].ppid : i \in DOMAIN e.sol.pps}) # Len(e.sol.pps) THEN "driver/duplicate-ppid"
   ELSE IF e.fields # [i \in 1..Len(e.sol.pps) |-> Fields[e.sol.pps[i].kind]] THEN "driver/field-table"
   ELSE ""
